@@ -6,7 +6,7 @@ TECH = "CBMC 6.11 code contracts on the real sources (DFCC: --enforce-contract /
 CLAIMS = {
  "C19": ("proof", "5 C19", "Per-operation function contracts on the real hashtab.c, objstack.c (+ OS_* macros through one-line wrappers) and the VLO_* macros: representation invariant kept, "
          "abstract effect stated over an arbitrary slot/byte (ghost index), frames proved. Unbounded in the number of operations by induction over calls; object sizes capped (CAP). "
-         "VLO growth (realloc pointer-difference idiom) and prime table sizes are native/bounded stand-ins, listed apart and not counted as proved.",
+         "VLO growth (realloc pointer-difference idiom), prime table sizes, OS_EMPTY over a segment chain (<= 3 segments) and the history-level statements are native/bounded stand-ins, listed apart and not counted as proved.",
          "CBMC + SAT; allocation model; caps on object sizes; probe-loop termination not proved; C++ twins not covered (see DESIGN C16/C19)."),
  "C15": ("proof", "5 C15", "Setters/accessors: loop-free full-domain contracts. yaep_parse: phase A (normal path + exit assertions at every error exit) and phase B (error branch text) with callees replaced by contracts. "
          "Token layer: symb_find_by_code, tok_add, read_toks under contract, symb_finish_adding_terms bounded. yaep_error in faithful mode. yaep_create_grammar defaults.",
@@ -15,7 +15,8 @@ CLAIMS = {
          "storage layer (fin/empty functions) releases/empties exactly once.",
          "Same as C15; 'returns what a fresh object would return' is proved only as equality of the state the call depends on, not as parser correctness."),
  "C17": ("proof", "5 C17", "Exit protocol: allocate.c wrappers report a failed request once through the installed handler; yaep's handler never returns; every allocation site inside functions under contract carries the exit assertion; "
-         "the unwinding branches of yaep_create_grammar and yaep_parse are verified from any state satisfying it.",
+         "the unwinding branches of yaep_create_grammar and yaep_parse are verified from any state satisfying it (incl.: the settings of the object are left as the caller made them); "
+         "inside _OS_expand_memory the exit assertion is checked at the failing request itself (the stack still owns its segment and top object).",
          "Allocation sites inside build_pl/make_parse/error_recovery are not under contract (their unwinding branch is)."),
  "C10": ("proof", "5 C10 / 9", "yaep_read_grammar is cut mechanically (rules R5-R8, on every run) into four regions that together are the whole function, each under its own contract: terminal intake (loop closed by an invariant: "
          "the object is switched to, emptied and marked undefined before the first callback), the rule loop around its body, the body for one delivered rule (every rule-level error code has a witness in what the "
@@ -40,7 +41,7 @@ CLAIMS = {
          "The R9 rewriting is trusted; C++ containers are not under contract (CBMC's C++ front end); recovery together with all parses is left out of the differential runs (known finding F38)."),
  "C12": ("proof", "5 C12", "All built-in CBMC safety classes (bounds, pointer, signed overflow, division, conversions) of every function placed under contract for any property, plus the targeted anchors: "
          "message buffer (faithful yaep_error), code translation vector, parser-list size, description lexer.",
-         "Only the functions listed in the evidence are covered; the Earley core, tree builder and bison automaton are named as unverified."),
+         "Only the functions listed in the evidence are covered; the Earley core, error recovery, tree builder and bison automaton are named as unverified (bounded native stand-ins under sanitizers reach into them: API histories, allocation failures, container growth points, recovery arguments)."),
 }
 NA = {
  "C01": "whole-algorithm relation 'succeeds iff the input is derivable': derivability is an inductive definition over strings that CBMC's contract language cannot state, and build_new_set/expand_new_start_set have no modular frame",
@@ -49,7 +50,7 @@ NA = {
  "C05": "the flag means 'two derivations exist' and is set inside make_parse's candidate loop; only the reset clause is provable and is carried by API.parse (C15)",
  "C07": "termination of recovery plus an existential over repairs of the input; no per-call contract",
  "C08": "minimality over all simple recoveries: universal over alternative runs of the parser; no per-call contract",
- "C06": "only the argument-consistency clauses of build_pl would be provable, and only against an assumed contract of error_recovery; 'first token no sentence continues with' is a C01-class statement; not built",
+ "C06": "only the argument-consistency clauses of build_pl would be provable, and only against an assumed contract of error_recovery (its loops have no invariant short of the recovery argument); 'first token no sentence continues with' is a C01-class statement. The bounds of the callback arguments are checked in bounded native form under C12 (E.recover.native, which found F36), not as a contract, so the property is not claimed",
  "C09": "equality of results across lookahead levels is a C01-class statement; the provable part (clamping) is carried by C15's API.set.set_lookahead; debug-level frame facts not built",
  "C18": "growth rate of total work over input length for a grammar class; a contract bounds one call",
 }
